@@ -278,6 +278,22 @@ def discipline(chk, rule='C09.R1'):
                 all('append' in ast.unparse(b) or 'logger' in ast.unparse(b) for b in st.body + st.orelse)
             chk.require(ok, rule, repo.where(sm, n), 'Server.run', '`is_alive` used beyond the join list', 'is_alive() only decides membership of the join list',
                         f'`{ast.unparse(st).splitlines()[0]}`: thread liveness (a timing-dependent fact) influences more than the list of threads to join')
+            # ... and the list filled under that test carries the same timing dependence: it may only be iterated to join its members
+            if ok:
+                lists = {x.func.value.id for b in st.body + st.orelse for x in ast.walk(b)
+                         if isinstance(x, ast.Call) and isinstance(x.func, ast.Attribute) and x.func.attr == 'append' and isinstance(x.func.value, ast.Name)}
+                for use in ast.walk(run):
+                    if isinstance(use, ast.Name) and use.id in lists and isinstance(use.ctx, ast.Load):
+                        par = parent(use)
+                        if isinstance(par, ast.Attribute) and par.attr == 'append':
+                            continue
+                        if isinstance(par, ast.For) and par.iter is use:
+                            continue
+                        if isinstance(par, (ast.Assign, ast.AnnAssign)):
+                            continue
+                        chk.fail(rule, repo.where(sm, use), 'Server.run', f'list of live threads `{use.id}` used beyond joining',
+                                 f'`{ast.unparse(stmt_of(use)).splitlines()[0][:80]}`: `{use.id}` is filled according to `is_alive()` - whether a thread that was turned away has already '
+                                 f'finished is a matter of timing - so nothing but the final join may depend on it (a rejected connection whose thread is slow to exit would count as a seated player)')
     return inv
 
 
